@@ -76,9 +76,12 @@ def run(chk):
         for prof in ("debug", "release"):
             b = group[0]["impl"].get(prof, "")
             bs, bo = execsuite.split_out(b)
-            if b.startswith("parse-error"):
-                continue
+            if b.startswith("parse-error") or b.startswith("timeout"):
+                continue          # a run cut off by the per-case time limit says nothing about behaviour
             for g in group[1:]:
+                if g["impl"].get(prof, "").startswith("timeout"):
+                    chk.count("discarded_timeout", 1)
+                    continue
                 s, o = execsuite.split_out(g["impl"].get(prof, ""))
                 if (execsuite.strip_msg(s), o) != (execsuite.strip_msg(bs), bo):
                     bad += 1
